@@ -47,5 +47,5 @@ CLAIMS["C18"] = dict(
          "recomputation oracle relies on pygom's integrator and loss kernels through a fresh loss object (C02/C06/C14). Genuine defects seen by this check: fit raised for GammaLoss with one "
          "observed state (repaired in /repo, 9a6447c); fit returns a point slightly WORSE than its start for target parameters / observed states "
          "given in non-ascending order, because the gradient handed to L-BFGS-B is permuted (the C07 index-order defect; corpus/C18/"
-         "worse-than-start-permuted-target.json; repaired by the C07 index-order patches).",
+         "worse-than-start-permuted-target.json; repaired in /repo by 050ae69, the C07 index-order fix).",
     technique="Lean 4 index arithmetic (reshape 'F') + optimiser contract as explicit hypothesis + wrapped-minimize correspondence + recomputation oracle")
